@@ -50,10 +50,67 @@ class Pt:
         return bool(self.x)
 
 
+class Coin:
+    """user object that has an attribute called `value` of its own (the proxy keeps the student's object in a field of
+    that name); its operators work on another field"""
+    def __init__(self, cents):
+        self.cents = cents
+        self.value = cents / 100
+
+    def __eq__(self, o):
+        return isinstance(o, Coin) and o.cents == self.cents
+
+    def __hash__(self):
+        return hash(('Coin', self.cents))
+
+    def __add__(self, o):
+        if isinstance(o, Coin):
+            return Coin(self.cents + o.cents)
+        if isinstance(o, int):
+            return Coin(self.cents + o)
+        return NotImplemented
+
+    __radd__ = __add__
+
+    def __lt__(self, o):
+        if isinstance(o, Coin):
+            return self.cents < o.cents
+        return NotImplemented
+
+    def __repr__(self):
+        return 'Coin(%r)' % self.cents
+
+    def __len__(self):
+        return 1
+
+    def __bool__(self):
+        return self.cents != 0
+
+    def __int__(self):
+        return self.cents
+
+
+class Token:
+    """user object whose comparison reads the OTHER operand's `value` attribute - the name of the field in which the
+    proxy keeps the student's object"""
+    def __init__(self, value):
+        self.value = value
+
+    def __eq__(self, o):
+        return isinstance(o, Token) and o.value == self.value
+
+    def __hash__(self):
+        return hash(('Token', self.value))
+
+    def __repr__(self):
+        return 'Token(%r)' % self.value
+
+
 def values():
     return [('int', 7), ('int0', 0), ('negint', -3), ('float', 2.5), ('bool', True), ('str', 'ab'), ('empty_str', ''),
             ('list', [1, 2]), ('tuple', (1, 2)), ('dict', {'a': 1}), ('set', {1, 2}), ('none', None), ('complex', 1 + 2j),
-            ('user', Pt(3)), ('frozenset', frozenset({1}))]
+            ('user', Pt(3)), ('frozenset', frozenset({1})), ('user_with_value_field', Coin(250)),
+            ('falsy_user_with_value_field', Coin(0)), ('user_reading_value_field', Token(4))]
 
 
 BINARY = [('+', operator.add), ('-', operator.sub), ('*', operator.mul), ('/', operator.truediv), ('//', operator.floordiv),
@@ -125,6 +182,8 @@ def bounded(arg):
             canon = '%s hands back NotImplemented' % opname
         elif raw[0] == 'ok' and not same(raw[1], got[1]):
             canon = '%s gives a different result on the proxy' % opname
+        if canon and 'user_reading_value_field' in desc and opname[:2] in ('==', '!='):
+            canon += ' (user object whose operator reads other.value)'
         if canon:
             failures.append({'id': kind, 'canon': canon, 'detail': '%s: raw %r, proxy %r%s' % (
                 desc, raw, (got[0], repr(got[1])[:60]), ', printed %r' % printed[:40] if printed else '')})
@@ -162,10 +221,36 @@ def bounded(arg):
         got, printed = outcome(R.len, SandboxResult(a))
         evaluations += 1
         report('unary', 'pedal.sandbox.result.len on a proxy', 'len(proxy %s)' % na, raw, got, printed)
+    # results of consecutive evaluations in ONE real sandbox: each proxy stands for its own result
+    from pedal.core.commands import clear_report, contextualize_report
+    from pedal.sandbox.sandbox import Sandbox
+    clear_report()
+    contextualize_report("pass")
+    sb = Sandbox()
+    sb.run("def same(x):\n    return x\n", filename='answer.py')
+    exprs = ['1', 'True', '1.0', '0', 'False', '0.0', '[1]', '[1]', "'1'", '(1,)', '[1]', '{1}', 'None', '1', '1']
+    handles = []
+    for e in exprs:
+        for how in ('evaluate', 'call'):
+            want = eval(e)
+            r = sb.evaluate(e) if how == 'evaluate' else sb.call('same', want)
+            evaluations += 1
+            distinct.add(('sequence', how, e))
+            got = unwrap(r)
+            if type(got) is not type(want) or got != want or str(r) != str(want) or repr(got) != repr(want):
+                failures.append({'id': 'sequence', 'canon': 'a result handle stands for another execution\'s value',
+                                 'detail': '%s(%s) after %r: handle holds %r (%s), str() gives %r' % (
+                                     how, e, exprs[:exprs.index(e)][-2:], got, type(got).__name__, str(r))})
+            handles.append((how, e, r))
+    lists = [unwrap(r) for how, e, r in handles if e == '[1]' and how == 'evaluate']
+    if any(a is b for i, a in enumerate(lists) for b in lists[i + 1:]):
+        failures.append({'id': 'sequence', 'canon': 'two evaluations share one result object',
+                         'detail': 'evaluate("[1]") twice returned handles on the same list object'})
     samples = [{'operation': '+', 'left': 'int 7', 'right': 'float 2.5', 'placement': 'left'},
                {'operation': 'float()', 'value': 'int 7'}, {'operation': 'in', 'container': "dict {'a': 1}", 'item': "proxy 'a'"}]
     return {'name': 'B-ops(proxy)', 'bound': 'exhaustive: %d binary operations x %d x %d value pairs x 3 proxy placements, '
-            '%d unary operations/builtins x %d values' % (len(BINARY), len(vals), len(vals), len(UNARY) + 4, len(vals)),
+            '%d unary operations/builtins x %d values (two of them user objects with a `value` attribute of their own); %d consecutive '
+            'evaluate()/call() results on one sandbox' % (len(BINARY), len(vals), len(vals), len(UNARY) + 4, len(vals), 2 * len(exprs)),
             'evaluations': evaluations, 'distinct_nontrivial': len(distinct), 'exhaustive': True,
             'rule': 'distinct = (operation, value classes, placement)', 'samples': samples, 'failures': failures}
 
